@@ -75,6 +75,7 @@ LAZARUS = 0.750024322   # reduced oracle for the recorded Guderley time-unit fin
 # Measured worst residuals of the correct code over the thorough lattice are noted next to each tolerance.
 CLS = {
     "A": dict(eta=1e-14, tol1=1e-6, tol2=1e-5, rsteps=(4e-3, 1e-3, 2.5e-4), tsteps=(4e-3, 1e-3, 2.5e-4), cells=None),
+    # B and C: steps in ratio 2 so that the three time stencils share their points (t +- k, 2k, 4k, 8k: 8 calls, not 12)
     "B": dict(eta=1e-10, tol1=1e-3, tol2=1e-3, rsteps=(8e-3, 4e-3, 2e-3), tsteps=(8e-3, 4e-3, 2e-3), cells=None),
     "C": dict(eta=1e-8, tol1=3e-2, tol2=3e-2, rsteps=(1.6e-2, 8e-3, 4e-3), tsteps=(1.6e-2, 8e-3, 4e-3), cells=(32, 16, 8)),
 }
@@ -332,19 +333,22 @@ def _zones_bisect(pr, sp, a, b, t):
 
 def sedov_setup(pr, t_hi):
     """Sentinel maximum radius (keeps the solver's internal 3001-point grid identical for every batch of this level):
-    1.25 x the shock radius located from the fields at the latest time of the level."""
-    from xpmc import hydro_more
-    rmax = hydro_more.sedov_shock_radius(pr.s, t_hi)
-    pr.ncall += 3
-    pr.sentinel = rmax
-    xs = np.linspace(0.0, rmax, 751)
-    M = pr.matrix(xs, t_hi)
-    z = [q for q in fd.detect(xs, M, kinks=False) if q["kind"] == "jump"]
-    if not z:
-        return None
-    sh = max(z, key=lambda q: q["jump"])
-    pr.sentinel = float("%.4g" % (1.25 * sh["hi"]))
-    return pr.sentinel
+    1.25 x the shock radius located from the fields at the latest time of the level (trial radii 1, 4, 16, ...)."""
+    rmax = 1.0
+    for _ in range(12):
+        pr.sentinel = rmax
+        xs = np.linspace(0.0, rmax, 751)
+        M = pr.matrix(xs, t_hi)
+        z = [q for q in fd.detect(xs, M, kinks=False) if q["kind"] == "jump"]
+        if z:
+            sh = max(z, key=lambda q: q["jump"])
+            if sh["hi"] < 0.3 * rmax:        # shock resolved by too few internal cells of this trial grid: zoom in
+                rmax = 2.0 * sh["hi"]
+                continue
+            pr.sentinel = float("%.4g" % (1.25 * sh["hi"]))
+            return pr.sentinel
+        rmax *= 4.0
+    return None
 
 
 def linear_core(xs, M):
@@ -475,11 +479,15 @@ def level(f, sp, cfg, pr, t, tier, res, tkey):
         d["x"] = X + j * H[i]
         fr[(i, j)] = d
     ft = {}
+    tcache = {}
     for i in range(ns):
         for j in (-2, -1, 1, 2):
-            d = pr.fields(X, t + j * ks[i])
-            d["x"] = X
-            ft[(i, j)] = d
+            key = round(j * ks[i] / ks[-1], 6)          # offsets in units of the smallest step: shared when steps are nested
+            if key not in tcache:
+                d = pr.fields(X, t + j * ks[i])
+                d["x"] = X
+                tcache[key] = d
+            ft[(i, j)] = tcache[key]
     names = [k for k in fc if k != "x"]
     gate = np.ones(n, bool)
     if sp.get("geneos"):
